@@ -214,6 +214,18 @@ def main():
             cfg = TrainingJobConfig(data_config=dc, model_config=mc, trainer_config=tc).to_sleap_nn_cfg()
         else:
             cfg = OmegaConf.create(plain)
+        if job.get("existing") and chunk_dir and not job.get("bare") and not job.get("reuse"):
+            # a two-run history: an earlier run wrote the chunks and kept them (delete_chunks_after_training off); this run
+            # re-uses them (use_existing_chunks) and is asked to delete them - afterwards none may remain (seed C19_r14)
+            from sleap_nn.training.model_trainer import ModelTrainer as _MT
+            cA = OmegaConf.create(OmegaConf.to_container(cfg, resolve=True))
+            cA.trainer_config.save_ckpt_path = os.path.join(work, "earlier_run")
+            cA.trainer_config.use_wandb = False
+            cA.data_config.delete_chunks_after_training = False
+            tA = _MT(cA)
+            tA.train()
+            cfg.data_config.use_existing_chunks = True
+            cfg.data_config.delete_chunks_after_training = True
         if job.get("reuse") and not job.get("bare"):
             # a configuration that has been USED before: the final training_config.yaml of an earlier run (it carries a
             # data_config.skeletons section, filled-in part names, the run's derived sizes) is given to a new run on labels
